@@ -43,7 +43,7 @@ def gen_c16(seed, policy=None):
     rng = random.Random(f"c16|{seed}")
     nag = rng.randint(1, 2)
     grp = rng.choice([[], [], [1]])
-    sims = [{"sid": "Sa", "type": rng.choice(["time-based", "hybrid"]), "gpath": list(grp)}]
+    sims = [{"sid": "Sa", "type": rng.choice(["time-based", "hybrid"]), "gpath": list(grp), "nent": rng.choice([1, 1, 2])}]
     conns, agents = [], {}
     for j in range(nag):
         b = ["Sb", "Sc"][j]
@@ -52,7 +52,7 @@ def gen_c16(seed, policy=None):
         if rng.random() < 0.7:
             c.update({"sa": "p", "da": "i"})
         conns.append(c)
-        agents[b] = {"target": "Sa", "attr": rng.choice(["i", "i2"]), "p": rng.choice([0.5, 0.8, 1.0])}
+        agents[b] = {"target": "Sa", "attr": rng.choice(["i", "i2"]), "p": rng.choice([0.5, 0.8, 1.0]), "eid": f"E{rng.randrange(sims[0]['nent'])}"}
     if rng.random() < 0.4:
         sims.append({"sid": "Sd", "type": "time-based", "gpath": []})
         conns.append({"src": "Sd", "dst": "Sa", "sa": "p", "da": "i2" if all(a["attr"] == "i" for a in agents.values()) else "i"})
@@ -60,7 +60,12 @@ def gen_c16(seed, policy=None):
         for a in agents.values():
             a["attr"] = "i" if conns[-1]["da"] == "i2" else "i2"
     illegal = []
-    if rng.random() < 0.5:
+    if rng.random() < 0.4:
+        # a simulator that is connected to an agent by an ORDINARY connection only: requests towards it must still be refused
+        who0 = rng.choice(list(agents))
+        sims.append({"sid": "Se", "type": "time-based", "gpath": []})
+        conns.append({"src": "Se", "dst": who0, "sa": "p", "da": "i2"})
+    if rng.random() < 0.6:
         who = rng.choice(list(agents))
         others = [s["sid"] for s in sims if s["sid"] not in ("Sa", who)]
         if others:
